@@ -166,6 +166,24 @@ def run(tier, seed):
             for k in ks:
                 jobs.append({"s": s, "k": k, "mode": mode, "data": data[:k], "pkts": pkts, "inp": rng.choice(["file", "pipe"]), "full": False})
 
+    # cuts at packet boundaries that are reader-batch boundaries too (100 packets per batch): the input ends cleanly after 100*k packets --
+    # there is no incomplete packet, so nothing but the findings of the complete packets may be reported (seed C18-H)
+    bpk, _bper = streams.conforming(rng, nlinks=2, nhbf=60 if deep else 45, stave_level=False)
+    while len(bpk) < 230:
+        more, _ = streams.conforming(rng, nlinks=2, nhbf=30, stave_level=False)
+        bpk = bpk + more
+    bdata = bytearray(streams.serialize(bpk))
+    boffs = streams.offsets(bpk)
+    for i in (3, 57, 101, 150, 199):
+        bdata[boffs[i] + 4] = 1          # priority bit: findings of their own before and behind the boundaries
+    bdata = bytes(bdata)
+    for mode in (["check", "sanity"], ["check", "all", "its"], ["view", "rdh"]):
+        jobs.append({"s": ncli, "k": len(bdata), "mode": mode, "data": bdata, "pkts": bpk, "inp": "file", "full": True})
+        for npk in (99, 100, 101, 199, 200, 201):
+            for d in (0, 1, 64, -1):
+                k = boffs[npk] + d
+                jobs.append({"s": ncli, "k": k, "mode": mode, "data": bdata[:k], "pkts": bpk, "inp": rng.choice(["file", "pipe"]), "full": False})
+
     def work(j):
         if j["inp"] == "file":
             path = os.path.join(tmp, "c_%d_%d_%s.raw" % (j["s"], j["k"], "_".join(j["mode"])))
@@ -216,6 +234,9 @@ def run(tier, seed):
             limit = offc + 64 + (len(j["pkts"][ncomp][1]) if ncomp < len(j["pkts"]) else 0)
             if any(x[0] > limit for x in later):
                 chk.spec_violations.append(dict(desc, later=later[:10], what="message located beyond the incomplete final packet"))
+            if have == 0 and later and j["mode"][-1] != "its-stave":
+                chk.spec_violations.append(dict(desc, later=later[:10], complete_packets=ncomp,
+                                                what="the input ends exactly at a packet boundary (no incomplete packet), yet a message that concerns no complete packet is reported"))
         elif j["mode"][1] != "rdh":
             pass        # frame views of a cut input: judged on `ends normally, no panic` above (their rows are C19's matter)
         else:
